@@ -21,6 +21,7 @@ func or(ctx context.Context, checks []checkgroup.CheckFunc) checkgroup.Result {
 	}
 
 	resultCh := make(chan checkgroup.Result, 1)
+	truncated := false
 
 	for _, check := range checks {
 		check(ctx, resultCh)
@@ -30,11 +31,18 @@ func or(ctx context.Context, checks []checkgroup.CheckFunc) checkgroup.Result {
 			if result.Err != nil || result.Membership == checkgroup.IsMember {
 				return result
 			}
+			if result.Membership == checkgroup.MembershipUnknown {
+				truncated = true
+			}
 		case <-ctx.Done():
 			return checkgroup.Result{Err: errors.WithStack(ctx.Err())}
 		}
 	}
 
+	if truncated {
+		// "not a member" only because a limit was reached
+		checkgroup.MarkTruncated(ctx)
+	}
 	return checkgroup.ResultNotMember
 }
 
@@ -57,6 +65,10 @@ func and(ctx context.Context, checks []checkgroup.CheckFunc) checkgroup.Result {
 			// We return fast on either an error or if a subcheck returns "not a
 			// member".
 			if result.Err != nil || result.Membership != checkgroup.IsMember {
+				if result.Err == nil && result.Membership == checkgroup.MembershipUnknown {
+					// "not a member" only because a limit was reached
+					checkgroup.MarkTruncated(ctx)
+				}
 				return checkgroup.Result{Err: result.Err, Membership: checkgroup.NotMember}
 			} else {
 				tree.Children = append(tree.Children, result.Tree)
